@@ -53,7 +53,19 @@ Fixpoint split_at (x : Z) (l : list svar) : option (list svar * svar * list svar
                    | None => None end
   end.
 
-Fixpoint greedy_okb (p1 kb : Q) (pass : svar -> svar -> bool) (st : list svar) (obs : list orow) : bool :=
+(* the members of one clump: every not-yet-clumped variant in the window is listed iff it passes
+   the r2 test (a test the run did not record - Exact mode - constrains nothing), everything
+   listed is a not-yet-clumped variant in the window, nothing is listed twice *)
+Definition members_ok (pass : svar -> svar -> option bool) (iv : svar) (kb : Q) (st : list svar) (ms : list Z)
+  : bool :=
+  forallb (fun c => negb (in_window iv kb c)
+                    || match pass iv c with
+                       | Some b => Bool.eqb (memZ (sv_id c) ms) b
+                       | None => true end) st
+  && forallb (fun x => existsb (fun c => (sv_id c =? x) && in_window iv kb c) st) ms
+  && nodupb ms.
+
+Fixpoint greedy_okb (p1 kb : Q) (pass : svar -> svar -> option bool) (st : list svar) (obs : list orow) : bool :=
   match obs with
   | [] => forallb (fun v => negb (eligible p1 v)) st          (* stops only when no index is left *)
   | (i, ms) :: rest =>
@@ -63,7 +75,7 @@ Fixpoint greedy_okb (p1 kb : Q) (pass : svar -> svar -> bool) (st : list svar) (
           eligible p1 iv
           && forallb (fun v => negb (eligible p1 v) || Qle_bool (sv_p iv) (sv_p v)) st      (* smallest p *)
           && forallb (fun v => negb (eligible p1 v) || Qlt_bool (sv_p iv) (sv_p v)) pre     (* file order on ties *)
-          && same_set ms (map sv_id (filter (fun c => in_window iv kb c && pass iv c) st))
+          && members_ok pass iv kb st ms
           && greedy_okb p1 kb pass
                (filter (fun v => negb (memZ (sv_id v) (i :: ms))) st) rest
       end
@@ -103,15 +115,10 @@ Definition holds_clump (k : ccase) : bool :=
   | Some st, Ok gts =>
       if negb (nodupb (map sv_id st)) then true else
       if negb (forallb (fun v => match load_variant gts v with Ok _ => true | Err _ => false end) st) then true else
-      (* an r2 the harness could not observe (Exact mode table) is not a property failure *)
-      if negb (forallb (fun iv => forallb (fun v => negb (in_window iv (k_kb c) v)
-                                                     || match passb k gts iv v with Some _ => true | None => negb (k_exact c) end) st) st)
-      then true else
       match cc_obs k with
       | Err e => e =? E_Unobserved                 (* raises or does not terminate (Err 12) *)
       | Ok obs =>
-          greedy_okb (k_p1 c) (k_kb c)
-            (fun iv v => match passb k gts iv v with Some b => b | None => false end) st obs
+          greedy_okb (k_p1 c) (k_kb c) (passb k gts) st obs
           && nodupb (all_ids obs)
       end
   | _, _ => true
